@@ -376,6 +376,7 @@ public:
     // connection the relay opened for an earlier, abandoned client (the start-up probe, a client
     // turned away while the server was down) may still arrive late and is recognised by its EOF.
     uint32_t nonce_ctr = 0;
+    std::vector<std::pair<uint32_t, int>> nonces; // (tag, slot) of the connections opened lately
     Outcome open_conn(Relay &r, Conn &cn, int i, bool bs)
     {
         cn.a.tag = 210 + i;
@@ -391,6 +392,8 @@ public:
         cn.a.fd = x_fd(cn.a);
         uint8_t nonce[8], got[8];
         uint32_t tag = mix32(++nonce_ctr, (uint32_t)getpid());
+        nonces.push_back({tag, i});
+        if (nonces.size() > 64) nonces.erase(nonces.begin());
         prf_fill(tag, nonce, sizeof(nonce));
         size_t sent = 0, ngot = 0;
         double t0 = now_s();
@@ -414,7 +417,16 @@ public:
                 if (rc > 0) {
                     ngot += rc;
                     if (!bs || ngot == sizeof(got)) {
-                        VF_CHECK(ngot == sizeof(nonce) && memcmp(got, nonce, sizeof(nonce)) == 0, "C20: the first message on the connection the relay opened for client connection %d is not what that client sent (%zu bytes)", i, ngot);
+                        if (!(ngot == sizeof(nonce) && memcmp(got, nonce, sizeof(nonce)) == 0)) {
+                            std::string whose = "nobody's first message in this process";
+                            for (size_t q = 0; q + 1 < nonces.size(); q++) {
+                                uint8_t other[8];
+                                prf_fill(nonces[q].first, other, sizeof(other));
+                                if (ngot == sizeof(other) && memcmp(got, other, sizeof(other)) == 0)
+                                    whose = "the first message of an earlier client connection (slot " + std::to_string(nonces[q].second) + ", " + std::to_string(nonces.size() - 1 - q) + " connection(s) ago)";
+                            }
+                            return failf("C20: the first message on the connection the relay opened for client connection %d is not what that client sent (%zu bytes: %s; it is %s)", i, ngot, hex(got, ngot, 8).c_str(), whose.c_str());
+                        }
                         paired = true;
                     }
                 } else if (rc == 0 || errno != EAGAIN) {
